@@ -254,9 +254,10 @@ class _ReusablePoolExecutor(ProcessPoolExecutor):
             ):
                 time.sleep(1e-3)
 
-            if self._flags.broken:
-                # The executor manager thread is terminating the executor
-                # (workers killed, queues closed): do not spawn workers
+            if self._flags.shutdown:
+                # The executor broke or was shut down (from another thread)
+                # in the meantime: the executor manager thread is terminating
+                # it (workers stopped, queues closed). Do not spawn workers
                 # that nobody would manage.
                 return
 
